@@ -195,4 +195,25 @@ theorem multistore_dup_rejected (fx : Fixes) (hfx : fx.dupNames = true) (name re
     multiStoreRun H encKV fx [⟨name, ver, forged⟩, ⟨name, ver, real⟩] name [forged] = .error .invalidProof := by
   simp [multiStoreRun, hfx]
 
+/-! ## End to end: `ProofRuntime.VerifyValue` / `VerifyAbsence` against the app hash -/
+
+/-- **End-to-end soundness** (strict verifier, duplicate names rejected): a value proof
+`[ValueOp, MultiStoreProofOp]` accepted against the app hash of a commit in which store `name` has the
+tree `t` states a pair stored in `t`, or a hash collision is exhibited. -/
+theorem verify_value_sound (hinj : EncInj enc) (hne : HNonEmpty H) (hlen : HLen H) (hkv : KVInj encKV)
+    (fx : Fixes) (hs : fx.strictNodes = true) (hd : fx.dupNames = true)
+    (p : Option RangeProof) (infos real : List StoreInfo) (name key value : Bytes) (hk0 : key ≠ []) (hn0 : name ≠ [])
+    (t : Tree) (hw : WF t) (hreal : ∀ si ∈ real, si.name = name → si.hash = Tree.hash H enc t)
+    (h : verify H enc encKV fx [.value key p, .multi name infos] (commitHash H encKV real) [name, key] [value] = some true) :
+    (∃ ver, (key, value, ver) ∈ t.leaves) ∨ ∃ x y, x ≠ y ∧ H x = H y :=
+  verify_value_sound' H enc encKV hinj hne hlen hkv fx hs hd p infos real name key value hk0 hn0 t hw hreal h
+
+theorem verify_absence_sound (hinj : EncInj enc) (hne : HNonEmpty H) (hlen : HLen H) (hkv : KVInj encKV)
+    (fx : Fixes) (hs : fx.strictNodes = true) (hd : fx.dupNames = true)
+    (p : RangeProof) (infos real : List StoreInfo) (name key : Bytes) (hk0 : key ≠ []) (hn0 : name ≠ [])
+    (t : Tree) (hw : WF t) (hreal : ∀ si ∈ real, si.name = name → si.hash = Tree.hash H enc t)
+    (h : verify H enc encKV fx [.absence key (some p), .multi name infos] (commitHash H encKV real) [name, key] [] = some true) :
+    (∀ e ∈ t.leaves, e.1 ≠ key) ∨ ∃ x y, x ≠ y ∧ H x = H y :=
+  verify_absence_sound' H enc encKV hinj hne hlen hkv fx hs hd p infos real name key hk0 hn0 t hw hreal h
+
 end C05
